@@ -27,6 +27,7 @@ var (
 	names  = map[string]int{}
 	events []Event
 	loaded bool
+	modelTrace []string
 )
 
 func load() {
@@ -42,6 +43,7 @@ func load() {
 			var m struct {
 				Model  map[string]string
 				Params map[string]int
+				Trace  []string
 			}
 			if json.Unmarshal(b, &m) == nil {
 				if m.Model != nil {
@@ -50,6 +52,7 @@ func load() {
 				if m.Params != nil {
 					params = m.Params
 				}
+				modelTrace = m.Trace
 			}
 		}
 	}
@@ -149,3 +152,10 @@ func Trace() []Event {
 func DeepEqual(a, b any) bool { return reflect.DeepEqual(a, b) }
 
 func OneOf(s string, candidates ...string) string { return s }
+
+func ModelTrace() []string {
+	mu.Lock()
+	defer mu.Unlock()
+	load()
+	return modelTrace
+}
